@@ -222,6 +222,7 @@ type backend struct {
 
 	etcd     *etcdx.Etcd
 	etcdRoot string
+	cli      *clientv3.Client // etcd-own only
 
 	dirs []string
 }
@@ -273,6 +274,19 @@ func newBackend(name string) (*backend, error) {
 		b.dirs = append(b.dirs, dir)
 		b.rsDir = dir
 		b.kvx = kvx.New(kv.NewMemoryKV())
+	case "etcd-own":
+		// an etcd kv over a client of its own, so that the client (and its context) can be closed mid-load
+		e, err := getEtcd()
+		if err != nil {
+			return nil, err
+		}
+		etcdCaseNo++
+		b.etcd = e
+		b.etcdRoot = fmt.Sprintf("/c17/%d", etcdCaseNo)
+		if err := b.reconnect(); err != nil {
+			return nil, err
+		}
+		return b, nil
 	case "etcd":
 		e, err := getEtcd()
 		if err != nil {
@@ -295,6 +309,34 @@ func newBackend(name string) (*backend, error) {
 		b.st = core.NewStorage(b.pw)
 	}
 	return b, nil
+}
+
+// reconnect gives the etcd-own backend a fresh client, kv wrapper and Storage on the same root.
+func (b *backend) reconnect() error {
+	cli, err := clientv3.New(clientv3.Config{Endpoints: []string{b.etcd.Endpoint}, DialTimeout: 10 * time.Second})
+	if err != nil {
+		return err
+	}
+	b.cli = cli
+	b.kvx = kvx.New(kv.NewEtcdKVBase(cli, b.etcdRoot))
+	b.kvx.SetLogging(false)
+	b.pw = newPageWatch(b.kvx)
+	b.st = core.NewStorage(b.pw)
+	return nil
+}
+
+// reopenLDB opens the LevelDB directory of the plain-kv backend again with fresh objects.
+func (b *backend) reopenLDB() error {
+	db, err := kv.NewLeveldbKV(b.dirs[0])
+	if err != nil {
+		return err
+	}
+	b.ldb = db
+	b.kvx = kvx.New(db)
+	b.kvx.SetLogging(false)
+	b.pw = newPageWatch(b.kvx)
+	b.st = core.NewStorage(b.pw)
+	return nil
 }
 
 // openRS (re)creates the region storage on dir and a Storage switched to it.
@@ -331,6 +373,10 @@ func (b *backend) close() {
 	if b.ldb != nil {
 		b.ldb.Close()
 		b.ldb = nil
+	}
+	if b.cli != nil {
+		b.cli.Close()
+		b.cli = nil
 	}
 	if b.etcd != nil {
 		ctx, c := context.WithTimeout(context.Background(), 30*time.Second)
